@@ -277,7 +277,7 @@ fn seg() -> impl Strategy<Value = Seg> {
 }
 
 pub fn run(ctx: &mut Ctx) {
-    ctx.rule = "inputs: all strings over the 16-symbol alphabet {a 1 _ $ space LF ' \" ` [ ] \\ ? . é NBSP} up to length L (exhaustive), \
+    ctx.rule = "inputs: all strings over the 16-symbol alphabet {a 1 _ $ space LF ' \" ` [ ] \\ ? . é NBSP} up to length L (exhaustive), every Unicode scalar value between words and inside a quoted segment (exhaustive), \
 random Unicode strings <= 200 chars, and strings constructed from plain and quoted segments (each delimiter; doubled and backslash-escaped \
 delimiters and placeholder marks inside). Non-trivial = the input contains a quote delimiter, bracket or backslash; distinct by input text."
         .into();
@@ -287,6 +287,23 @@ delimiters and placeholder marks inside). Non-trivial = the input contains a quo
     let max_len = ctx.tier.pick(4, 5);
     let total = count_strings(16, max_len);
     ctx.run_indexed("alphabet", total, &|i| Case::Raw(nth_string(&ALPHABET, i)), &check);
+    // every Unicode scalar value, alone between two words and inside a quoted segment (exhaustive over code points)
+    ctx.run_indexed(
+        "all-chars",
+        0x110000 * 2,
+        &|i| {
+            let ch = char::from_u32((i / 2) as u32).unwrap_or('\u{fffd}');
+            if i % 2 == 0 {
+                Case::Raw(format!("a{ch}b {ch}"))
+            } else {
+                Case::Segs(vec![Seg::Plain("x ".into()), Seg::Quoted { delim: '\'', body: vec![Piece::Ch(ch), Piece::Ch('?')] }, Seg::Plain(" y".into())])
+            }
+        },
+        &check,
+    );
+    if let Some(p) = ctx.parts.last_mut() {
+        p.exhaustive = true;
+    }
     let n = ctx.tier.pick(60_000, 2_000_000);
     ctx.run_proptest("random-unicode", n, &|| nasty_string(200).prop_map(Case::Raw), &check);
     let n = ctx.tier.pick(60_000, 2_000_000);
